@@ -6,9 +6,9 @@ def main():
     if out.returncode or not out.stdout.strip().startswith("/repo/"):
         print("pyerrors not importable from /repo:", out.stdout, out.stderr)
         sys.exit(1)
-    for d in ("/dev/shm",):
-        if not os.access(d, os.W_OK):
-            print("scratch not writable:", d); sys.exit(1)
+    import tempfile
+    if not os.access("/dev/shm", os.W_OK) and not os.access(tempfile.gettempdir(), os.W_OK):
+        print("no writable scratch directory (/dev/shm or $TMPDIR)"); sys.exit(1)
     print("setup ok")
 if __name__ == "__main__":
     main()
